@@ -1,6 +1,7 @@
 (* C07 — slot accounting: memory = disk = wire (this file); conservation law (C07_ledger.v) and
    the f32 slot formula (C07_slots.v) are in their own files.  Statements only. *)
 From TeosModel Require Import Base TxIndex Tower TowerStable TowerInv TowerProofs TowerSubs.
+From TeosModel.Gen Require HttpChecks.
 Local Open Scope N_scope.
 
 (* In every reachable state (no aborted handler) the balance kept in memory and the persisted one
@@ -35,6 +36,14 @@ Theorem C07_renewal_tops_up le t sc u ui :
   exists t' st e, step le t (ORegister u) sc = (t', ORegisterRes (RegOk (u_slots ui + c_slots (cfg t)) st e)).
 Proof. intros Hg Hs. do 3 eexists. exact (register_renew le t sc u ui Hg Hs). Qed.
 
+(* 'never less than one slot': the formula gives 0 slots for the empty blob only (C07_slots.v:
+   C07_slots_ge_one_refuted / C07_slots_ge_one_nonempty); the HTTP API refuses an empty
+   encrypted_blob before anything is charged (regenerated from http.rs on every run; the refusal
+   itself is exercised through the real router by C15). *)
+Theorem C07_empty_blob_refused_at_http : HttpChecks.ADD_APPOINTMENT_REJECTS_EMPTY_BLOB = true.
+Proof. reflexivity. Qed.
+
+Print Assumptions C07_empty_blob_refused_at_http.
 Print Assumptions C07_memory_eq_disk.
 Print Assumptions C07_register_wire_eq_disk.
 Print Assumptions C07_renewal_tops_up.
